@@ -181,22 +181,77 @@ let listing (forms : expr list) : string =
     String.concat ";" (List.map (show_instr names) (gen e))
   end
 
+(* listing of the F1 generator model (coq/Model/GenF1.v).  The extraction renames the second
+   instruction type: its constructors are IPush0 .. ICallExpr0, ILoopStart .. ICont. *)
+let rec scope_names_f1 (e : expr) : string list =
+  match e with
+  | EBegin es | EAnd es | EOr es -> List.concat_map scope_names_f1 es
+  | ECond (arms, d) -> List.concat_map (fun (c, b) -> scope_names_f1 c @ scope_names_f1 b) arms @ scope_names_f1 d
+  | EDef (_, e1) | ESet (_, e1) -> scope_names_f1 e1
+  | ELet (seq, bs, body) ->
+    (if seq then "runtime letseq" else "runtime let") :: (List.concat_map (fun (_, e1) -> scope_names_f1 e1) bs @ List.concat_map scope_names_f1 body)
+  | EScope es -> "newScope" :: List.concat_map scope_names_f1 es
+  | EFor (_, i, t, st, body) ->
+    "LOOP" :: (scope_names_f1 i @ scope_names_f1 st @ scope_names_f1 t @ List.concat_map scope_names_f1 body)
+  | _ -> []
+
+let listing_f1 (forms : expr list) : string =
+  let e = EBegin forms in
+  if not (f1_ok e && cc [] e) then "NOTF1"
+  else begin
+    let names = ref (scope_names_f1 e) in
+    let loopnames : (int, string) Hashtbl.t = Hashtbl.create 8 in
+    let lname id = let i = int_of_nat id in
+      (match Hashtbl.find_opt loopnames i with
+       | Some s -> s
+       | None -> let s = "L" ^ string_of_int (Hashtbl.length loopnames + 1) in Hashtbl.replace loopnames i s; s) in
+    let last_loop = ref "" in
+    let ni n = string_of_int (int_of_nat n) in
+    let show i = match i with
+      | IPush0 e -> "push " ^ show_lit e
+      | IEnvToStack0 x -> "envToStack " ^ name_of x
+      | IPop0 -> "pop"
+      | IDup0 -> "dup"
+      | IBranch0 (true, off) -> "br " ^ ni off
+      | IBranch0 (false, off) -> "brn " ^ ni off
+      | IJump0 off -> "jump " ^ ni off
+      | IJumpBack off -> "jump -" ^ ni off
+      | IPutEnv0 x -> "popStackPutEnv " ^ name_of x
+      | IUpdate0 x -> "putup " ^ name_of x
+      | IAddScope0 ->
+        (match !names with
+         | "LOOP" :: r -> names := r; "add scope runtime " ^ !last_loop
+         | n :: r -> names := r; "add scope " ^ n
+         | [] -> "add scope ?")
+      | IRemoveScope0 -> "rem runtime scope"
+      | ICallExpr0 (_, args) -> "callExpr " ^ string_of_int (List.length args)
+      | ILoopStart (id, bo, co) -> last_loop := lname id; "loopstart " ^ lname id ^ " brk=" ^ ni bo ^ " cont=" ^ ni co
+      | ILabel -> "label"
+      | IPushMark id -> "push-stack-mark " ^ lname id
+      | IPopUntilMark id -> "pop-until-stack-mark " ^ lname id
+      | IClearMark id -> "clear-stack-mark " ^ lname id
+      | IBreak (id, k) -> "break " ^ lname id ^ " pop=" ^ ni k
+      | ICont (id, k) -> "continue " ^ lname id ^ " pop=" ^ ni k in
+    String.concat ";" (List.map show (f1_gen f1_top O e))
+  end
+
 let () =
   iter_lines (fun line ->
     match split_tab line with
     | id :: body :: _ ->
       (try
-        let fuel = ref 300 and failat = ref 0 and bytecode = ref false in
+        let fuel = ref 300 and failat = ref 0 and bytecode = ref false and f1mode = ref false in
         let toks = tokenize body in
         let rec opts = function
           | t :: r when String.length t > 5 && String.sub t 0 5 = "fuel=" -> fuel := int_of_string (String.sub t 5 (String.length t - 5)); opts r
           | t :: r when String.length t > 7 && String.sub t 0 7 = "failat=" -> failat := int_of_string (String.sub t 7 (String.length t - 7)); opts r
           | "bytecode=1" :: r -> bytecode := true; opts r
+          | "bytecode=2" :: r -> bytecode := true; f1mode := true; opts r
           | t :: r when t <> "(" && t <> ")" && String.contains t '=' && t <> "==" && t <> "!=" && t <> "<=" && t <> ">=" -> opts r
           | r -> r in
         let toks = opts toks in
         let forms = List.map expr_of (parse_all toks) in
-        if !bytecode then Printf.printf "%s\t%s\t-\n%!" id (listing forms)
+        if !bytecode then Printf.printf "%s\t%s\t-\n%!" id (if !f1mode then listing_f1 forms else listing forms)
         else begin
           let o = eval_program_cfg (nat_of_int !fuel) (nat_of_int !failat) forms in
           Printf.printf "%s\t%s\t-\n%!" id (show_outcome o)
